@@ -190,6 +190,7 @@ func c02MustReject(class string) bool {
 // reach into the headers: then nothing is claimed about the image.
 type peFileLayout struct {
 	ck, dd, soh, tail, certStart int
+	opt, secTab                  int // the optional header: [opt, secTab)
 	secs                         [][2]int
 	nobits                       int // headers that declare raw data but have no file pointer
 }
@@ -212,6 +213,7 @@ func peLayoutOf(img []byte) (l peFileLayout, ok bool) {
 	if l.dd+8 > secTab || secTab+40*nsec > len(img) {
 		return l, false
 	}
+	l.opt, l.secTab = opt, secTab
 	l.soh = int(binary.LittleEndian.Uint32(img[opt+60:]))
 	l.certStart = len(img)
 	if sz := int(binary.LittleEndian.Uint32(img[l.dd+4:])); sz > 0 {
@@ -279,6 +281,17 @@ func c02CoveredChanges(c *Ctx, cs Case, signed []byte, right *x509.Certificate, 
 	}
 	add("headers", 2+c.Rng.Intn(0x3a), 0, l.soh) // the DOS header between the magic and e_lfanew
 	add("headers", l.soh-1, 0, l.soh)
+	// the optional header, field by field: one byte (chosen by the case) in every 8-byte window from the
+	// certificate-table directory entry back to the start of the optional header and forward to the section table,
+	// i.e. every other data directory the image has (NumberOfRvaAndSizes is the image's: 5..16 in the generated
+	// images) and the fields in front of them; the only bytes of this range that a signature does not cover are the
+	// checksum and the certificate-table entry itself
+	for w := l.dd - 8; w >= l.opt; w -= 8 {
+		add("optional-header", w+c.Rng.Intn(8), l.opt, l.dd)
+	}
+	for w := l.dd + 8; w+8 <= l.secTab; w += 8 {
+		add("optional-header", w+c.Rng.Intn(8), l.dd+8, l.secTab)
+	}
 	for i, sc := range l.secs {
 		if i < 3 || i == len(l.secs)-1 {
 			add("section", sc[0], sc[0], sc[1])
@@ -645,6 +658,13 @@ func c02Eval(c *Ctx, cs Case) {
 	signed, sig, err := signImage(c, base, 0)
 	if err != nil {
 		c.Fail(Failure{Kind: "property", What: "signing a well-formed image failed: " + err.Error(), Case: cs})
+		return
+	}
+	// what the derivations start from must be a signed image for a reader that owes nothing to the library: the
+	// certificate-table directory entry (independent header walk) names a non-empty table that is the tail of the file
+	if dd, be := peOffsets(signed); be < dd+8 || be >= len(signed) || int(binary.LittleEndian.Uint32(signed[dd:])) != be {
+		c.Fail(Failure{Kind: "property", What: fmt.Sprintf("the library signed a well-formed image (%d data directories), but in the output the certificate-table directory entry, located by an independent header walk at %#x, does not name a table that is the tail of the file (address %#x, size %#x, file length %#x): no verifier finds the signature where the format puts it, and whatever the library's own Verify accepts here it does not take from this image's certificate table",
+			specOfCase(cs).NDirs, dd, binary.LittleEndian.Uint32(signed[dd:]), binary.LittleEndian.Uint32(signed[dd+4:]), len(signed)), Case: cs, Go: goVerifyClass(signed, right)})
 		return
 	}
 	c.Sample(cs)
@@ -1106,7 +1126,7 @@ func c02Gen(c *Ctx) {
 
 func init() {
 	register("C02", &PropDef{
-		Rule:   "images from the C01 generator and two repository binaries, signed by the library; for each, Verify under the signer's certificate, a twin certificate (same issuer and serial, another key) and a stranger, on: the signed image, the unsigned image, ~25 stratified single-byte changes (+8 inside the certificate table), a cross-image transplant of the certificate table, a covered-byte change with the embedded digest overwritten by the new image digest (alone, and combined with each targeted blob edit and OID replacement), targeted edits inside the blob (content, content type, certificates, signer identity, message digest, dropped attributes), a sample of generic blob mutations, two-signature tables in both orders, a tampered image carrying the original signature plus a foreign key's signature over the tampered bytes (both orders), and the same tampered image with ONE table entry: the foreign key's signature with the genuine signature over the original bytes placed inside it, in every place of a blob that can hold another blob (unsigned attributes of a signer entry under the SpcNestedSignature / MS RFC 3161 timestamp / timeStampToken / an unknown attribute type, one and two values; a counter-signature attribute holding the genuine signer entry; an extra certificate; the CRL field; a further content element; the genuine signer entries appended / prepended; trailing fields of SignedData and of the content info; a second SignedData), plus a sample of the reverse nesting. The targeted blob edits include the two-signer-entry combinations of C04 (identity x signature, and identity x attributes re-bound to replaced content) and a blob consistently re-signed by another key. Every pair is compared with the Lean Impl verifier (real SHA-256/RSA) and judged by Spec.authenticodeVerify; in addition, two oracles that do not go through Lean: (a) derivation classes whose construction rules out a success (unsigned, transplant, digest-rewrite*, tampered+*, data-after-table, size-inflate, table-shift) must not verify under any asked certificate; (b) covered-byte changes by an independent header walk: on every signed image that verifies, one bit is changed in the headers (outside checksum and certificate-table entry), at both ends of the raw data of the sections that have a place in the file, and behind the last such section up to the certificate table (its first four bytes one by one, offsets 2^k and 2^k-1 from its start, its last bytes, three random ones), and the image must no longer verify. Besides the well-formed images, 8 images whose section table also holds one or two headers that declare raw data without a file pointer (SizeOfRawData in {1,7,8,9,64,512,random} > 0, PointerToRawData = 0; in front of or behind the other headers), with fewer / exactly as many / more bytes behind the last section than these headers declare: the Lean Spec is asked (pe.spec) whether an image lies in its well-formed domain; outside it neither the Spec verdict nor the Impl model is applied, the library may refuse to parse or sign, and when it signs and verifies the image, oracle (b), the twin / stranger certificates and the table transplant still bind it. One parsed object asked repeatedly (the way a caller walks a signature database with one parsed signature): for every image, histories of 3-7 calls of Authenticode.Verify (over the hash input of the image or a changed stream), its PKCS7.Verify and PECOFFBinary.Verify on ONE parsed Authenticode / PECOFFBinary with the signer, twin and stranger certificates in both orders (signer first, other key first), mixed entry points and random walks; every call must answer what the same call answers on a freshly parsed object, and only (signer certificate, own hash input) may succeed. The histories also hold calls that are CUT SHORT: Authenticode.Verify over a reader that delivers the first k bytes of the hash input and then fails with a read error (the error in a read of its own, or together with the last bytes), or that delivers only the first k bytes, followed by a call that is handed only the REST of the hash input from k on (on the same object, or on an object parsed for that call, under the same or another certificate) and by a call over the whole image; k in {1, 63, 64, half, length-1, two random positions} (quick: one of the first five and one random), five fixed shapes per k plus the random walks, in which every step draws its stream from {whole, changed, fault@k, head@k, tail@k} and a quarter of the steps run on an object parsed for the step. The steps of a history run back to back; what each call answers alone is asked on freshly parsed objects after the history. A call over a failing reader, over a head or over a tail must never succeed. The reader-based API (Authenticode.Verify under the signer's certificate, SignAuthenticode) is run over every reader kind (bytes.Reader, bytes.Buffer, one byte per Read, data together with io.EOF, half reads, an io.SectionReader declared larger than the data) x the streams {hash input, last byte changed, middle byte changed, last byte missing, another image, the hash input without its first byte, the hash input from a position chosen by the image}, AND over seekable readers that do not stand at offset 0 when handed over: the stream behind a header of 1..96 random bytes with the reader standing on the first byte of the stream (bytes.Reader seeked / read up to there, strings.Reader seeked, io.SectionReader window into a larger buffer seeked / read up to there, *os.File seeked), and, for the two suffix streams, the same six readers over the WHOLE hash input standing at the cut; Verify must succeed exactly when the bytes the reader delivers are the hash input, SignAuthenticode (all reader kinds at offset 0; a third of the positioned ones per generated image, all of them for the repository binaries) must embed the SHA-256 of the bytes delivered. What the signature VALUE holds, and verifying certificates with RSA public exponent 3: every image is also signed with a 2048-bit exponent-3 key and must verify under that certificate (and under no stranger / twin); the image's genuine signature blob is then made to name the exponent-3 certificate with a signature value computed from the PUBLIC key alone - the integer cube root of a number that begins 00 01 FF*8 00 DigestInfo(SHA-256 of the attributes) and continues with whatever the root leaves (DigestInfo in its standard form / without NULL parameters; with eight / one / no padding octets; quick: the first two and one of the others per generated image) -, and to carry under the signer's own certificate values made with the private key over blocks that deviate from 00 01 FF..FF 00 DigestInfo in one respect (octets behind the DigestInfo, NULL parameters absent, four padding octets behind leading zeros, block type 02, a padding octet that is not FF, BER lengths in the DigestInfo, the digest of other attributes; quick: a third of them per generated image): nothing of this is an RSASSA-PKCS1-v1_5 signature by the named key, nothing may verify (judged by the Spec, by the independent stdlib verifier and by construction). Cross-protocol transplants: a signature the image-signing key made over something that is not an image - a variable update as SignEFIVariable signs it (SignPKCS7, content type data, detached; as ContentInfo and as the bare SignedData of a descriptor) and an OpenSSL-shaped detached CMS signature over the same bytes - whose UNSIGNED encapsulated content info is rewritten to the SpcIndirectDataContent of this image (content type rewritten to SpcIndirectDataContent, or left as data) and which is then placed in the image's certificate table: the signed contentType (data) and message digest (of the plain data) are the key holder's own, the key never committed to this image's digest, nothing may verify (quick: the first combination under all certificates and one other under the signer's per generated image; all six for the repository binaries). The targeted blob edits shared with C04 now include the encapsulated content replaced by an element with an EMPTY value (SEQUENCE / OCTET STRING / NULL / SET) and the signer entry re-made by the signer's own key under SHA-1 / SHA-384 / SHA-512 (quick: two of these nine per generated image, all on the repository binaries; C04 runs all of them on the blobs). Every case is non-trivial; distinct = distinct (image bytes, certificate) resp. (image, history, step) resp. (image, stream, reader).",
+		Rule:   "images from the C01 generator and two repository binaries, signed by the library; for each, Verify under the signer's certificate, a twin certificate (same issuer and serial, another key) and a stranger, on: the signed image, the unsigned image, ~25 stratified single-byte changes (+8 inside the certificate table), a cross-image transplant of the certificate table, a covered-byte change with the embedded digest overwritten by the new image digest (alone, and combined with each targeted blob edit and OID replacement), targeted edits inside the blob (content, content type, certificates, signer identity, message digest, dropped attributes), a sample of generic blob mutations, two-signature tables in both orders, a tampered image carrying the original signature plus a foreign key's signature over the tampered bytes (both orders), and the same tampered image with ONE table entry: the foreign key's signature with the genuine signature over the original bytes placed inside it, in every place of a blob that can hold another blob (unsigned attributes of a signer entry under the SpcNestedSignature / MS RFC 3161 timestamp / timeStampToken / an unknown attribute type, one and two values; a counter-signature attribute holding the genuine signer entry; an extra certificate; the CRL field; a further content element; the genuine signer entries appended / prepended; trailing fields of SignedData and of the content info; a second SignedData), plus a sample of the reverse nesting. The targeted blob edits include the two-signer-entry combinations of C04 (identity x signature, and identity x attributes re-bound to replaced content) and a blob consistently re-signed by another key. Every pair is compared with the Lean Impl verifier (real SHA-256/RSA) and judged by Spec.authenticodeVerify; in addition, two oracles that do not go through Lean: (a) derivation classes whose construction rules out a success (unsigned, transplant, digest-rewrite*, tampered+*, data-after-table, size-inflate, table-shift) must not verify under any asked certificate; (b) covered-byte changes by an independent header walk: on every signed image that verifies, one bit is changed in the headers (outside checksum and certificate-table entry), in EVERY 8-BYTE WINDOW OF THE OPTIONAL HEADER (one byte per window, chosen by the case, from the certificate-table directory entry back to the start of the optional header and forward to the section table: every other data directory of the image - the generated images carry 5..16 of them, SizeOfOptionalHeader to match - and the fields in front of them), at both ends of the raw data of the sections that have a place in the file, and behind the last such section up to the certificate table (its first four bytes one by one, offsets 2^k and 2^k-1 from its start, its last bytes, three random ones), and the image must no longer verify. Besides the well-formed images, 8 images whose section table also holds one or two headers that declare raw data without a file pointer (SizeOfRawData in {1,7,8,9,64,512,random} > 0, PointerToRawData = 0; in front of or behind the other headers), with fewer / exactly as many / more bytes behind the last section than these headers declare: the Lean Spec is asked (pe.spec) whether an image lies in its well-formed domain; outside it neither the Spec verdict nor the Impl model is applied, the library may refuse to parse or sign, and when it signs and verifies the image, oracle (b), the twin / stranger certificates and the table transplant still bind it. One parsed object asked repeatedly (the way a caller walks a signature database with one parsed signature): for every image, histories of 3-7 calls of Authenticode.Verify (over the hash input of the image or a changed stream), its PKCS7.Verify and PECOFFBinary.Verify on ONE parsed Authenticode / PECOFFBinary with the signer, twin and stranger certificates in both orders (signer first, other key first), mixed entry points and random walks; every call must answer what the same call answers on a freshly parsed object, and only (signer certificate, own hash input) may succeed. The histories also hold calls that are CUT SHORT: Authenticode.Verify over a reader that delivers the first k bytes of the hash input and then fails with a read error (the error in a read of its own, or together with the last bytes), or that delivers only the first k bytes, followed by a call that is handed only the REST of the hash input from k on (on the same object, or on an object parsed for that call, under the same or another certificate) and by a call over the whole image; k in {1, 63, 64, half, length-1, two random positions} (quick: one of the first five and one random), five fixed shapes per k plus the random walks, in which every step draws its stream from {whole, changed, fault@k, head@k, tail@k} and a quarter of the steps run on an object parsed for the step. The steps of a history run back to back; what each call answers alone is asked on freshly parsed objects after the history. A call over a failing reader, over a head or over a tail must never succeed. The reader-based API (Authenticode.Verify under the signer's certificate, SignAuthenticode) is run over every reader kind (bytes.Reader, bytes.Buffer, one byte per Read, data together with io.EOF, half reads, an io.SectionReader declared larger than the data) x the streams {hash input, last byte changed, middle byte changed, last byte missing, another image, the hash input without its first byte, the hash input from a position chosen by the image}, AND over seekable readers that do not stand at offset 0 when handed over: the stream behind a header of 1..96 random bytes with the reader standing on the first byte of the stream (bytes.Reader seeked / read up to there, strings.Reader seeked, io.SectionReader window into a larger buffer seeked / read up to there, *os.File seeked), and, for the two suffix streams, the same six readers over the WHOLE hash input standing at the cut; Verify must succeed exactly when the bytes the reader delivers are the hash input, SignAuthenticode (all reader kinds at offset 0; a third of the positioned ones per generated image, all of them for the repository binaries) must embed the SHA-256 of the bytes delivered. What the signature VALUE holds, and verifying certificates with RSA public exponent 3: every image is also signed with a 2048-bit exponent-3 key and must verify under that certificate (and under no stranger / twin); the image's genuine signature blob is then made to name the exponent-3 certificate with a signature value computed from the PUBLIC key alone - the integer cube root of a number that begins 00 01 FF*8 00 DigestInfo(SHA-256 of the attributes) and continues with whatever the root leaves (DigestInfo in its standard form / without NULL parameters; with eight / one / no padding octets; quick: the first two and one of the others per generated image) -, and to carry under the signer's own certificate values made with the private key over blocks that deviate from 00 01 FF..FF 00 DigestInfo in one respect (octets behind the DigestInfo, NULL parameters absent, four padding octets behind leading zeros, block type 02, a padding octet that is not FF, BER lengths in the DigestInfo, the digest of other attributes; quick: a third of them per generated image): nothing of this is an RSASSA-PKCS1-v1_5 signature by the named key, nothing may verify (judged by the Spec, by the independent stdlib verifier and by construction). Cross-protocol transplants: a signature the image-signing key made over something that is not an image - a variable update as SignEFIVariable signs it (SignPKCS7, content type data, detached; as ContentInfo and as the bare SignedData of a descriptor) and an OpenSSL-shaped detached CMS signature over the same bytes - whose UNSIGNED encapsulated content info is rewritten to the SpcIndirectDataContent of this image (content type rewritten to SpcIndirectDataContent, or left as data) and which is then placed in the image's certificate table: the signed contentType (data) and message digest (of the plain data) are the key holder's own, the key never committed to this image's digest, nothing may verify (quick: the first combination under all certificates and one other under the signer's per generated image; all six for the repository binaries). The targeted blob edits shared with C04 now include the encapsulated content replaced by an element with an EMPTY value (SEQUENCE / OCTET STRING / NULL / SET) and the signer entry re-made by the signer's own key under SHA-1 / SHA-384 / SHA-512 (quick: two of these nine per generated image, all on the repository binaries; C04 runs all of them on the blobs). What the derivations start from is checked by an independent header walk before anything is derived: in the file the library signed, the certificate-table directory entry must name a non-empty table that is the tail of the file (reported with the image as a failing input otherwise). Every case is non-trivial; distinct = distinct (image bytes, certificate) resp. (image, history, step) resp. (image, stream, reader).",
 		Assume: []string{"RSA/SHA-256 on the model side are the executable Lean implementations", "x509.ParseCertificates is opaque (its verdicts are handed to the model)"},
 		Eval:   c02Eval, Gen: c02Gen,
 	})
